@@ -291,8 +291,8 @@ func cmdRun(args []string) int {
 			nd++
 		}
 		if verbose || r.Status != "discharged" {
-			fmt.Printf("  [%s] %-28s paths=%d queries=%d (sat %d unsat %d unk %d) solver=%.1fs wall=%.1fs kinds=%v\n", r.Status, r.Spec.Name,
-				r.St.Paths, r.Solver.Queries, r.Solver.Sat, r.Solver.Unsat, r.Solver.Unknown, r.Solver.Seconds, r.Wall, r.St.PathKinds)
+			fmt.Printf("  [%s] %-28s paths=%d queries=%d (sat %d unsat %d unk %d) solver=%.1fs wall=%.1fs steps=%d kinds=%v\n", r.Status, r.Spec.Name,
+				r.St.Paths, r.Solver.Queries, r.Solver.Sat, r.Solver.Unsat, r.Solver.Unknown, r.Solver.Seconds, r.Wall, r.St.Steps, r.St.PathKinds)
 		}
 	}
 	fmt.Printf("%s tier=%s: %d/%d obligations discharged, %d violation(s), %d inconclusive note(s), %.1fs\n", prop, tier, nd, len(results), nviol, len(inconc), wall)
@@ -384,7 +384,7 @@ func runOb(eng *sx.Engine, o ObSpec, tier string, open map[string]bool, verbose 
 		defer f.Close()
 	}
 	x := &sx.X{E: eng, B: smt.NewB(), S: s}
-	x.Cfg = sx.Config{Unwind: o.Unwind, MaxPaths: o.MaxPaths, MaxSteps: 4000000, AllowPanic: o.AllowPanic, OpenKnown: open, Cuts: o.Cuts}
+	x.Cfg = sx.Config{Unwind: o.Unwind, MaxPaths: o.MaxPaths, MaxSteps: 4000000, AllowPanic: o.AllowPanic, OpenKnown: open, Cuts: o.Cuts, Trace: verbose}
 	if x.Cfg.Unwind == 0 {
 		x.Cfg.Unwind = 600
 	}
